@@ -75,18 +75,25 @@ Proof.
   split; [exact I|constructor].
 Qed.
 
+Lemma ex1_startxref : startxref_at ex1_file 26.
+Proof.
+  exists [37; 80; 68; 70; 45; 49; 46; 52; 10; 49; 32; 48; 32; 111; 98; 106; 10; 53; 10; 101; 110; 100; 111; 98; 106; 10; 120; 114; 101; 102; 10; 48; 32; 50; 10; 48; 48; 48; 48; 48; 48; 48; 48; 48; 48; 32; 54; 53; 53; 51; 53; 32; 102; 32; 10; 48; 48; 48; 48; 48; 48; 48; 48; 48; 57; 32; 48; 48; 48; 48; 48; 32; 110; 32; 10; 116; 114; 97; 105; 108; 101; 114; 10; 60; 60; 47; 83; 105; 122; 101; 32; 50; 62; 62; 10], [10], [10; 37; 37; 69; 79; 70; 10].
+  split; [vm_compute; reflexivity|]. split; [repeat constructor|]. split; [reflexivity|]. split; [reflexivity|].
+  split; repeat constructor; discriminate.
+Qed.
+
 Example resolve_latest_example :
   exists t, load (xref_at_tables no_resolve (fun _ => 0)) ex1_file = Ok (0, t, 0) /\
     forall n fuel, n < 2 ->
       stored ex1_file 0 n (latest ex1_h n)
         (resolve_ref prim (obj_at_parse no_resolve false F_ANY) (fun _ _ _ => Err E_OTHER) (S fuel) ex1_file 0 t n).
 Proof.
-  apply (resolve_latest_tables no_resolve (fun _ => 0) false (fun _ _ _ => Err E_OTHER) ex1_file ex1_h [ex1_secs] 26 ex1_secs ex1_dict [] 2).
+  apply (resolve_latest_tables_file no_resolve (fun _ => 0) false (fun _ _ _ => Err E_OTHER) ex1_file ex1_h [ex1_secs] 26 ex1_secs ex1_dict [] 2).
   - exact ex1_represents.
   - exact ex1_wf.
   - reflexivity.
   - reflexivity.
-  - vm_compute. reflexivity.
+  - exact ex1_startxref.
   - exact ex1_section.
   - reflexivity.
   - vm_compute. discriminate.
